@@ -228,7 +228,7 @@ def run(R):
         lean_ok = vlib.step_lean(R, PID)
     race = R.tier == "thorough"
     ov = overlays(R)
-    exe, log = vlib.build_harness(R.tmp, extra_overlay=ov, race=race)
+    exe, log = vlib.build_harness(R.tmp, extra_overlay=ov, race=race, pid=PID)
     if exe is None:
         R.violation("harness does not build against /repo", {"build_log": log[-3000:]}, no_input=True)
         return
@@ -322,7 +322,7 @@ def replay(R, path):
     with open(path) as fh:
         p = json.load(fh)
     ov = overlays(R)
-    exe, log = vlib.build_harness(R.tmp, extra_overlay=ov)
+    exe, log = vlib.build_harness(R.tmp, extra_overlay=ov, pid=PID)
     R.coverage.update({"obligations": 1, "discharged": 1, "checker_cmd": "replay", "trusted_base": []})
     if "case" not in p:
         print("this replay names a theorem / tie that no longer checks, there is no input to run:", p.get("what", ""))
